@@ -14,7 +14,7 @@ from .. import gens
 from ..harness import digest, watchdog, WatchdogTimeout
 
 MANIFEST = {
-    'text': 'Held on every transform executed: frequency_transform is run for methods {hilbert, nht, quad} x sample rates {1,100,512,2000} x record lengths x sinusoid frequency (10 cycles per record .. sr/12) x amplitude over 3 decades x phase x 1-3 columns; shapes, phase range, derivative consistency and two-sided accuracy bounds (calibrated in the pre-study with >= 2x headroom, reported next to the largest error seen) are asserted, scale factors 2^k must leave IP/IF bit-identical and scale IA exactly, also on AM/FM signals, sifted-noise IMFs and 3-D stacks; frequency/phase round trips on smooth random profiles must equal the two-sample average (1e-9). Sampling, not proof.',
+    'text': 'Held on every transform executed: frequency_transform is run for methods {hilbert, nht, quad} x sample rates {1,100,512,2000} x record lengths x sinusoid frequency (10 cycles per record .. sr/12) x amplitude over 3 decades x phase x 1-3 columns; shapes, phase range, derivative consistency and two-sided accuracy bounds (calibrated in the pre-study with >= 2x headroom, reported next to the largest error seen) are asserted, scale factors 2^k must leave IP/IF bit-identical and scale IA exactly, also on AM/FM signals, sifted-noise IMFs and 3-D stacks; frequency/phase round trips on smooth random profiles must equal the two-sample average (1e-9). Sampling, not proof. A quarter of the shards run in a session that turns Deprecation/Future/UserWarnings into errors.',
     'note': 'Trusted: scipy.signal.hilbert / medfilt, numpy. Accuracy bounds are properties of the estimators on clean sinusoids (interior = all but 3 cycles / 20 samples at each end), not of arbitrary signals.',
     'technique': 'runtime oracle on the real transforms: analytic ground truth for sinusoids + exact metamorphic scaling + derivative-consistency invariant',
 }
